@@ -11,8 +11,8 @@ OUTSIDE = ('median_filter on images with more than one pixel: std::nth_element (
            'execution per call and gives no verdict within the cap for two calls, also with only one symbolic pixel; on a 1x1 image all nine window values are equal, so that '
            'query checks memory safety / absence of UB of extend_boundary + nth_element on symbolic data but cannot distinguish the median from another rank.  '
            'Otsu: "output equals threshold_binary for a single threshold" is thorough-only and had no verdict (8 GB cap reached) at 2x2; images above 3x2; the value of the chosen threshold.  '
-           'threshold_adaptive (not part of the property); NaN channel values; structuring elements that are not symmetric about the centre, that do not contain the centre '
-           '(morph_impl always includes the pixel itself, so there erode <= src <= dilate still holds but dilate is not the maximum over the SE neighbourhood), or larger than 3x3; '
+           'threshold_adaptive (not part of the property); NaN channel values; structuring elements that are not symmetric about the centre, that do not contain the centre for the definition / monotonicity / opening-closing clauses '
+           '(morph_impl always includes the pixel itself, so there erode <= src <= dilate still holds - that order law IS checked with a centre-free SE - but dilate is not the maximum over the SE neighbourhood), or larger than 3x3; '
            'more than one iteration; multi-channel images in morphology / median (per-channel dispatch through nth_channel_view is covered by threshold_optimal only)')
 ASSUMPTIONS = ['"symmetric structuring element" is read as symmetric about its centre (B = -B), the usual meaning in morphology; the SE layout is the one documented by kernel_2d::at(x, y) = begin()[y*size+x]',
                'the structuring element contains its centre (needed for the property\'s own inference erode <= src <= dilate)',
@@ -65,6 +65,8 @@ def queries(tier, seed):
             qs.append(mq('morph/def/%s/%dx%d/non_matrix_symmetric_se' % (on, w, h), 'h_morph_def', w, h, 1, op, t))
             qs.append(mq('morph/mono/%s/%dx%d' % (on, w, h), 'h_morph_mono', w, h, 2, op, t))
         qs.append(mq('morph/order/%dx%d' % (w, h), 'h_morph_order', w, h, 2, 0, t))
+        # the same order law for a symmetric SE that need not contain its centre (morph_impl starts from the pixel itself, so the law still holds)
+        q = mq('morph/order_centre_free/%dx%d' % (w, h), 'h_morph_order', w, h, 2, 0, t if (w, h) in ((2, 2), (3, 3)) else 'thorough'); q.params[3] = 0; q.shape = dict(q.defs, params=list(q.params)); qs.append(q)
     for (w, h, t) in ((2, 2, 'quick'), (3, 2, 'quick'), (3, 3, 'thorough'), (1, 3, 'thorough'), (4, 2, 'thorough')):
         qs.append(mq('morph/openclose/%dx%d' % (w, h), 'h_morph_openclose', w, h, 2, 0, t, to=300 if t == 'quick' else 900))
     for (w, h) in ((2, 2), (3, 2), (3, 3)):
